@@ -1,1 +1,21 @@
-fn main(){}
+//! vacct: account-level monitors (C01 C02 C12 C13 C16 C18 C19 C20, C03 local part).
+mod c01;
+mod common;
+
+#[global_allocator]
+static ALLOC: vkit::alloc::Counting = vkit::alloc::Counting;
+
+fn main() {
+    let args = vkit::Args::parse();
+    let prop = args.check[..3.min(args.check.len())].to_uppercase();
+    let mut rep = vkit::Reporter::new(&prop, args.out.clone());
+    let rt = tokio::runtime::Builder::new_multi_thread().worker_threads(2).enable_all().build().unwrap();
+    match args.check.as_str() {
+        "c01" => rt.block_on(c01::run(&args, &mut rep)),
+        other => {
+            eprintln!("vacct: unknown check {}", other);
+            std::process::exit(2);
+        }
+    }
+    rep.finish();
+}
